@@ -5,6 +5,7 @@ go 1.17
 require (
 	github.com/cloudwego/dynamicgo v0.0.0
 	github.com/cloudwego/gopkg v0.0.0-20240731030152-5e0df5ad4e40
+	github.com/jhump/protoreflect v1.8.2
 	google.golang.org/protobuf v1.33.0
 )
 
@@ -18,7 +19,6 @@ require (
 	github.com/fatih/structtag v1.2.0 // indirect
 	github.com/golang/protobuf v1.5.4 // indirect
 	github.com/iancoleman/strcase v0.2.0 // indirect
-	github.com/jhump/protoreflect v1.8.2 // indirect
 	github.com/klauspost/cpuid/v2 v2.2.4 // indirect
 	github.com/pmezard/go-difflib v1.0.0 // indirect
 	github.com/stretchr/testify v1.9.0 // indirect
